@@ -19,6 +19,8 @@ LEVEL = "other"
 def run(chk):
     cfgs = ["base", "z"]
     chk.configs = cfgs
+    chk.rule("POLY.intersect", "GetSegmentIntersection: an end point stored as the intersection under `cross == 0` lies on both lines (identically, or by the "
+             "guard's equation); the general case hands both segments to GetSegmentIntersectPt, whose result lies on both lines (polynomial normal forms)")
     chk.rule("T.rect", "Rect::Contains(Rect) == closed inclusion, Rect::Intersects == closed boxes meet, Rect::IsEmpty == zero or negative "
              "extent, on every weak ordering of the eight coordinates; RectClip64::Execute uses them as: outside -> continue, "
              "inside -> result.emplace_back(path); continue")
@@ -37,6 +39,9 @@ def run(chk):
         e3.rect_shortcuts(db, chk, cfg)
         e3.location_table(db, chk, cfg)
         e3.bounds_update_table(db, chk, cfg)
+        from ..engines import e14_poly as e14
+        e14.rule_segment_cases(db, chk, cfg)
+        e14.rule_intersect(db, chk, cfg)
         e3.side_algebra_tables(db, chk, cfg)
         e3.next_location_table(db, chk, cfg)
         e3.scan_start_rule(db, chk, cfg, "RectClip64::ExecuteInternal", 0)
